@@ -1,8 +1,128 @@
 import RisorModel.Util
-/-! Line-protocol front end of the C03 model (stub until the model exists). -/
+import RisorModel.C03.Model
+/-! Line-protocol front end of the C03 model (fields after the leading `C03`).
+
+* `toks <runes> <a,b,eof;…>`   runes = comma-separated code points (`-` = empty); per token
+  the start/end rune offsets and whether it is the EOF token →
+  `ok` then one field per token: `sl,sc,sls,el,ec,els,<G>,<F>` with the model's position
+  registers at both ends, G = `P` | `s:e` (GetLineText) and F = `P` | `pad:n` (FriendlyErrorMessage)
+* `ast <prefix tokens>` → `clean` | `nil <slot>`
+* `vm <op*count,…>` → `ok <sp> <fp>` | `recovered <why>`
+* `inspect <heap> <value>` → `ok <hex of the rendering>` | `nofuel`
+* `equals <heap> <a> <b>` → `t|f|overflow` then `ranked=<bool>` -/
 namespace Risor.C03
+open Risor.Util
+
+def parseNats (s : String) : Option (List Nat) :=
+  if s = "-" then some [] else (s.splitOn ",").mapM String.toNat?
+
+def allStates (cs : Array Nat) : Array LexSt := Id.run do
+  let mut s := readChar cs LexSt.init
+  let mut out := #[s]
+  for _ in [0:cs.size + 2] do
+    s := readChar cs s
+    out := out.push s
+  return out
+
+def showOutPair (o : Out (Int × Int)) : String :=
+  match o with
+  | .panic _ => "P"
+  | .ok (a, b) => toString a ++ ":" ++ toString b
+
+def showOutNat (o : Out (Nat × Nat)) : String :=
+  match o with
+  | .panic _ => "P"
+  | .ok (a, b) => toString a ++ ":" ++ toString b
+
+def tokReply (cs : Array Nat) (st : Array LexSt) (spec : String) : String :=
+  match spec.splitOn "," with
+  | [a, b, e] =>
+    match a.toNat?, b.toNat? with
+    | some a, some b =>
+      match st[a]?, st[b]? with
+      | some s, some t =>
+        let g := getLineText cs s.pos s.line (e == "1")
+        let f := friendly s.col t.col
+        s!"{s.line},{s.col},{s.lineStart},{t.line},{t.col},{t.lineStart},{showOutPair g},{showOutNat f}"
+      | _, _ => "range"
+    | _, _ => "bad"
+  | _ => "bad"
+
+def parseVal (s : String) : Option Val :=
+  if s.startsWith "i" then (s.drop 1).toString.toInt?.map Val.int
+  else if s.startsWith "r" then (s.drop 1).toString.toNat?.map Val.ref
+  else none
+
+def parseCont (s : String) : Option Cont :=
+  if s.startsWith "L" then
+    let body := (s.drop 1).toString
+    if body = "" then some (.list []) else ((body.splitOn ",").mapM parseVal).map Cont.list
+  else if s.startsWith "M" then
+    let body := (s.drop 1).toString
+    if body = "" then some (.map []) else
+      ((body.splitOn ",").mapM fun (kv : String) =>
+        match kv.splitOn "=" with
+        | [k, v] => (parseVal v).map fun x => (k, x)
+        | _ => none).map Cont.map
+  else none
+
+def parseHeap (s : String) : Option Heap :=
+  if s = "-" then some [] else (s.splitOn ";").mapM parseCont
+
+def parseVmOps (s : String) : Option (List VmOp) :=
+  ((s.splitOn ",").mapM fun (part : String) =>
+    match part.splitOn "*" with
+    | [o, n] =>
+      match n.toNat? with
+      | some k =>
+        (match o with
+         | "push" => some VmOp.push
+         | "pop" => some VmOp.pop
+         | "call" => some VmOp.call
+         | "ret" => some VmOp.ret
+         | _ => none).map (List.replicate k)
+      | none => none
+    | _ => none).map List.flatten
 
 def handle : List String → String
-  | _ => "error\tnot-implemented"
+  | ["toks", runes, specs] =>
+    match parseNats runes with
+    | none => "error\tbad-runes"
+    | some csl =>
+      let cs := csl.toArray
+      let st := allStates cs
+      let parts := if specs = "-" then [] else (specs.splitOn ";").map (tokReply cs st)
+      "\t".intercalate ("ok" :: parts)
+  | ["ast", toks] =>
+    match buildAst (toks.splitOn " ") with
+    | none => "error\tbad-ast"
+    | some a =>
+      match illegalNil a with
+      | none => "clean"
+      | some slot => "nil\t" ++ slot
+  | ["vm", ops] =>
+    match parseVmOps ops with
+    | none => "error\tbad-ops"
+    | some l =>
+      match vmRun Vm.init l with
+      | .ok s => s!"ok\t{s.sp}\t{s.fp}"
+      | .recovered w => "recovered\t" ++ w
+  | ["inspect", heap, v] =>
+    match parseHeap heap, parseVal v with
+    | some h, some v =>
+      match inspectTop h v with
+      | some s => "ok\t" ++ toHexField (strBytes s)
+      | none => "nofuel"
+    | _, _ => "error\tbad-heap"
+  | ["equals", heap, a, b] =>
+    match parseHeap heap, parseVal a, parseVal b with
+    | some h, some a, some b =>
+      let r := match equalsImpl h a b with
+        | .t => "t"
+        | .f => "f"
+        | .overflow => "overflow"
+      r ++ "\tranked=" ++ toString (ranked 0 h)
+    | _, _, _ => "error\tbad-heap"
+  | _ => "error\tunknown-request"
 
 end Risor.C03
